@@ -1,5 +1,5 @@
-\* exhaustive, parameters focus: block > 2 components (shared definitions), 3 values, nesting 3, all keep-sets (thorough)
-CONSTANTS N = 3  Par = {"p", "q"}  NVal = 3  NGrid = 2  MaxDepth = 3  MaxLevel = 5
+\* exhaustive, parameters focus: block > 2 components (shared definitions), nesting 3, all keep-sets (thorough)
+CONSTANTS N = 3  Par = {"p", "q"}  NVal = 2  NGrid = 2  MaxDepth = 3  MaxLevel = 5
           GridSlot = "stack"  PickleSerial = "fresh"
 CONSTANTS Keeps <- KeepsFull  Acts <- ActsParams  Parent0 <- ParentA  Cls0 <- ClsA
           ParOf <- McParOf  GridCls <- McGridCls  MatCls <- McMatCls
